@@ -200,3 +200,25 @@ func (e *Engine) report(verbose bool) {
 		fmt.Println("CALLBACKS:", strings.Join(sortedKeys(e.unmodelledIface), "; "))
 	}
 }
+
+func init() {
+	if len(os.Args) > 1 && os.Args[1] == "-list" {
+		e := newEngine("/repo")
+		mod := "."
+		if len(os.Args) > 3 {
+			mod = os.Args[3]
+		}
+		if err := e.load(mod); err != nil {
+			fmt.Println(err)
+			os.Exit(2)
+		}
+		for p := range e.spkgs {
+			if strings.HasSuffix(p, os.Args[2]) {
+				for _, n := range e.allFunctionNames(p) {
+					fmt.Println(n)
+				}
+			}
+		}
+		os.Exit(0)
+	}
+}
